@@ -36,7 +36,7 @@ SEMS = {
                 none='null',
                 into={NONE: 'Val.null', INT: 'Val.int {0}', UINT: 'Val.int {0}', REF: 'Val.cell {0}', SLICEV: 'Val.slice {0}.1 {0}.2',
                       BUILDERV: 'Val.builder {0}.1 {0}.2', CONT: 'Val.cont {0}', LV: 'Val.tuple {0}',
-                      OPT(CONT): 'match {0} with | some k => Val.cont k | none => Val.null'}),
+                      OPT(CONT): 'Py.Tlb.valOfOptCont {0}'}),
     'Cont': dict(lean='Cont R',
                  ctors={'std': [('cdata', CTL), ('code', SLICEV)], 'envelope': [('cdata', CTL), ('next', K)], 'quit': [('exit_code', INT)],
                         'quitExc': [], 'repeat_': [('count', INT), ('body', K), ('after', K)], 'until_': [('body', K), ('after', K)],
